@@ -20,7 +20,8 @@ RULE = ("histories of 4..14 messages (claims from a small NAME pool so that iden
         "network map on/off x claim PGN filtered/not; oracle: per input the model's verdict and identity; non-trivial = history with a "
         "re-claim, or >= 2 claimed sources, or data before claim; distinct = (configuration, history)")
 ASSUMPTIONS = [
-    "nmea2000.decoder.datetime is replaced (harness process only) by a clock that stays within 0 .. 9 min 59 s after construction",
+    "nmea2000.decoder.datetime is replaced (harness process only) by a controlled clock: 0 .. 9 min 59 s after construction, or after "
+    "10 min 1 s (then an unclaimed source is let through without identity; the exact boundary second is avoided)",
     "a fast-packet message is expected iff every one of its frames passed the source gate at the time it arrived; it carries the identity "
     "valid when its last frame arrives",
     "for NAMEs with a manufacturer code unknown to the database the include/exclude verdict is not asserted (the statement does not define it)",
@@ -105,9 +106,11 @@ def run_case(cfg, pool, items, offsets):
             undefined = False
             if ident is None:
                 stats["data_before_claim"] += 1
-                if cfg["map"]:
+                if cfg["map"] and off < 600.0:
                     gate = False
                     stats["withheld"] += 1
+                elif cfg["map"]:
+                    stats["after_window_unclaimed"] = stats.get("after_window_unclaimed", 0) + 1
             elif ident["manufacturer_code"] is None:
                 undefined = cfg["mode"] != "none"
             else:
@@ -179,9 +182,15 @@ def _work(ctx: Ctx, item):
                                      single_keys=traffic.SINGLE_KEYS + ["59904/isoRequest"] * 3,
                                      fast_keys=["129029/gnssPositionData", "127489/engineParametersDynamic"]))
         gaps = draw(st.lists(st.sampled_from([0.0, 0.001, 1.0, 20.0]), min_size=len(items), max_size=len(items)))
-        offs, t = [], draw(st.sampled_from([0.0, 0.0, 300.0, 590.0]))
+        # mostly inside the 10-minute discovery window; sometimes the history straddles or lies after its end (an unclaimed source
+        # is then let through without identity, and a later claim must still take effect)
+        start = draw(st.sampled_from([0.0, 0.0, 300.0, 590.0, 595.0, 700.0]))
+        cap = 599.0 if start < 590.0 else 5000.0
+        offs, t = [], start
         for g in gaps:
-            t = min(t + g, 599.0)
+            t = min(t + g, cap)
+            if 599.0 < t < 601.0:
+                t = 601.0            # stay clear of the exact boundary (strict / non-strict comparison is not specified)
             offs.append(t)
         return draw(configs()), pool, items, offs
 
